@@ -459,6 +459,7 @@ impl<'c> Run<'c> {
 /// Full comparison of what a transaction shows with a model state.
 /// Returns a description of the first difference.
 pub fn verify_tx_against(tx: &Tx, model: &MBucket, thorough_reads: bool) -> Option<String> {
+    crate::report::progress();
     let dump = match dump_tx(tx) {
         Ok(d) => d,
         Err(e) => return Some(e),
@@ -727,6 +728,7 @@ fn mk_bound<'a>(t: (u8, usize), arena: &'a [Vec<u8>]) -> Bound<&'a [u8]> {
 }
 
 pub fn run_history(h: &History, cfg: &ExecCfg, path: &Path) -> Outcome {
+    crate::report::progress();
     let mut run = Run::new(cfg, h.pagesize);
     let r = util::catch(|| run_inner(h, &mut run, path));
     match r {
@@ -769,6 +771,7 @@ pub fn exec_tx(run: &mut Run, db: &DB, path: &Path, script: &TxScript, ti: usize
 /// Like `exec_tx`; `mid` runs after the last operation, just before commit / drop, while the write
 /// transaction is still open (e.g. to open a reader while a writer is in flight).
 pub fn exec_tx_mid(run: &mut Run, db: &DB, path: &Path, script: &TxScript, ti: usize, committed_ref: &mut MBucket, mid: Option<&dyn Fn()>) {
+    crate::report::progress();
     run.cur_tx = ti;
     run.cur_op = None;
     let mut committed = committed_ref.clone();
@@ -873,6 +876,7 @@ fn exec_tx_inner(run: &mut Run, db: &DB, path: &Path, script: &TxScript, committ
             let mut handed_kv: Vec<(jammdb::KVPair, Vec<u8>, Vec<u8>)> = Vec::new();
             for (oi, op) in script.ops.iter().enumerate() {
                 run.cur_op = Some(oi);
+                crate::report::progress();
                 run.out.stats.ops += 1;
                 run.last_was_err = false;
                 // resolve the handle, skip ops on handles that are not live (shrunk replays)
